@@ -7,8 +7,12 @@ META = {
                    'payload (str <= 3 chars, flags, enum selectors); one provider transaction of each kind runs through the real '
                    'transaction manager, SdcProvider._send_episodic_reports and the real port-type implementations; the captured '
                    'report objects are fed in emission order to the real ConsumerMdib.process_incoming_*; canonical member-wise '
-                   'snapshots, every lookup index vs. a linear scan, and the consumer\'s change notifications are compared.',
-    'outside': ['XML wire format of the reports (identity stub; data-type round trips are C05, timestamps at 1 ms resolution C18)',
+                   'snapshots, every lookup index vs. a linear scan, and the consumer\'s change notifications are compared. C01.wire.*: the '
+                   'same transaction kinds between a real SdcProvider and a real SdcConsumer + ConsumerMdib over a loop-back transport '
+                   '(real XML, schema validation on both sides; concrete payload pool). C01.e3.*: initial load vs. concurrently '
+                   'arriving reports and vs. concurrently committing transactions (engine E3, shared with C06 / C07).',
+    'outside': ['XML wire format of the reports for SYMBOLIC payload (identity stub in C01.state / C01.descr / C01.two / C01.seq; the real '
+                'wire is used by C01.wire.* with a concrete payload pool; data-type round trips are C05, timestamps C18)',
                 'initial load / reload via GetMdib and faulty delivery (C06)', 'symbolic sample VALUES of real-time sample arrays (Decimal realises; counters and sample count are symbolic) and '
                 'the ConsumerRtBuffer contents / waveform age logging', 'histories longer than 2 transactions (induction over histories is an argument: the step '
                 'obligation starts from arbitrary version counters)', 'MDIBs larger than the 8-16 descriptor kit'],
